@@ -400,6 +400,46 @@ def run(chk):
     fact('reference: == eta_ref exp((E + P V)/R (1/T - 1/T_ref))', vr, eref * exp((E + P * V) / Rg * (1 / T - 1 / Tref)), mv.where(f_ref))
     fact('reference: value at T_ref == eta_ref', X.subst(vr, {'temperature': Tref}), eref, mv.where(f_ref))
     record_sign(chk, 'R19.4', 'reference: d viscosity / d T <= 0', X.diff(vr, 'temperature'), (NEG, NONPOS), mv.where(f_ref))
+    # the saturated regions of the clamped laws: where the exponent is held at its bound B (resp. -B) the value must be the law AT that bound -- the interior law continued
+    # continuously -- or the viscosity jumps at the hand-over (downwards on cooling when the saturated value is smaller than the interior limit: not monotone in T)
+    def saturated(side):
+        bounds = []
+        def pol(node):
+            a, b = node.args
+            def lognat(n): return any(t_.val[0].startswith('float_lognat') or t_.val[0] == 'float_max' for t_ in X.atoms_of(n))
+            if not (lognat(a) or lognat(b)): return None
+            bnd, flip = (b, False) if lognat(b) else (a, True)
+            op = node.val if not flip else {'<': '>', '<=': '>=', '>': '<', '>=': '<='}[node.val]
+            # exponent (op) bound, with bound = +B or -B
+            try:
+                neg_bound = X.float_eval(bnd, {'float_max': 1.7976931348623157e308, 'float_lognat_max': 709.782712893384, 'pi': 3.141592653589793}).real < 0
+            except Exception:
+                neg_bound = sign_of(bnd) in (NEG, NONPOS)
+            if side == 'upper':     # exponent >= +B
+                r = {'<': 1 if False else 0, '<=': 0, '>': 1, '>=': 1}[op] if not neg_bound else {'<': 0, '<=': 0, '>': 1, '>=': 1}[op]
+                if not neg_bound and op in ('>=', '>'): bounds.append(bnd)
+            else:                   # exponent <= -B
+                r = {'<': 1, '<=': 1, '>': 0, '>=': 0}[op]
+                if neg_bound and op in ('<=', '<'): bounds.append(bnd)
+            return r
+        return ghost_mask({}, pol), bounds
+    xarg = (E + P * V) / (T * Rg)
+    for lawname, fn_, args_, interior, xexp in (('arrhenius (no extra T)', f_arr, [T, P, A, False, st, se, gs, ge, E, V], va, xarg),
+                                                ('reference', f_ref, [T, P, eref, Tref, E, V], vr, (E + P * V) / Rg * (1 / T - 1 / Tref))):
+        raw = it.call(mv, fn_, args_)
+        for side in ('upper', 'lower'):
+            hk, bnds = saturated(side)
+            vsat = X.specialize(raw, hk)
+            if not bnds:
+                chk.undecide('R19.4', f'{lawname}: saturated value on the {side} side', 'no clamp of the exponent against a bound found'); continue
+            B = bnds[0]
+            from ..core.regions import masks_in
+            if masks_in(vsat):
+                chk.undecide('R19.4', f'{lawname}: saturated value on the {side} side', 'masks other than the clamp masks remain in the value'); continue
+            ok_ = d.equal(vsat * exp(xexp), interior * exp(B))
+            chk.ob('R19.4', f'{lawname}: where the exponent is held at its {side} bound the value is the law at that bound (no jump at the hand-over: non-increasing in T across it)', ok_,
+                   '' if ok_ else 'the saturated value is not the interior law continued to the bound: ' + d.describe(vsat * exp(xexp), interior * exp(B)), mv.where(fn_), key=f'R19.4|saturated|{lawname}|{side}',
+                   method='clamp regions selected by ghost masks + GF(p^2) PIT')
     vcn = it.call(mv, f_con, [T, P, eref])
     fact('constant: == reference viscosity', vcn, eref, mv.where(f_con))
     record_sign(chk, 'R19.4', 'constant: d viscosity / d T <= 0', X.diff(vcn, 'temperature'), (NEG, NONPOS, ZERO), mv.where(f_con))
